@@ -277,3 +277,34 @@ def returned_variant(body, path):
                 else:
                     res = ("expr", str(rv)[:80])
     return res
+
+
+def flags_consistent(body, path):
+    """False when the path takes a branch on a bool local that contradicts the constant the same path assigned
+    to it earlier (`let is_x = matches!(..)` followed by `if is_x`): such paths do not exist."""
+    vals = {}
+    blocks = path.blocks
+    for i, bb in enumerate(blocks):
+        for s in body.stmts(bb):
+            if s[0] == "=" and len(s[1]) == 1:
+                rv = s[2]
+                if rv[0] == "use" and rv[1][0] == "k" and isinstance(rv[1][2], bool):
+                    vals[s[1][0]] = rv[1][2]
+                elif rv[0] == "use" and rv[1][0] != "k" and len(rv[1][1]) == 1 and rv[1][1][0] in vals:
+                    vals[s[1][0]] = vals[rv[1][1][0]]
+                elif rv[0] == "un" and rv[1] == "Not" and op_local(rv[2]) in vals:
+                    vals[s[1][0]] = not vals[op_local(rv[2])]
+                else:
+                    vals.pop(s[1][0], None)
+        t = body.term(bb)
+        if t[0] == "call" and len(t[3]) == 1:
+            vals.pop(t[3][0], None)
+        if t[0] == "switch" and i + 1 < len(blocks):
+            l = op_local(t[1])
+            if l in vals and isinstance(vals[l], bool):
+                nxt = blocks[i + 1]
+                arms = {int(v): tb for v, tb in t[2]}
+                want = arms.get(int(vals[l]), t[3])
+                if nxt != want:
+                    return False
+    return True
